@@ -316,6 +316,13 @@ func GenAcctArgs(r *Rand) []string {
 			switch r.Intn(6) {
 			case 0:
 				b[k] = PickOf(r, byte('%'), '"', '\\', '\'', '<', '>', '&', 0, 7, 10, 13, 27, 127, '=', '*')
+			case 1:
+				// text that already looks like an escape sequence of the record's encoding
+				if esc := PickOf(r, "\\u003c", "\\u0026", "\\u003e", "\\n", "\\\""); k+len(esc) <= l {
+					copy(b[k:], esc)
+				} else {
+					b[k] = byte(r.Intn(128))
+				}
 			default:
 				b[k] = byte(r.Intn(128))
 			}
@@ -328,7 +335,7 @@ func GenAcctArgs(r *Rand) []string {
 // hostileText draws a text field with formatting metacharacters.
 func hostileText(r *Rand, base string) string {
 	if r.Chance(30) {
-		return base + PickOf(r, "%s", "%d", "100%\"", "%!x", "\\n", "\x00", "%v%v", "\"quoted\"", "a\tb")
+		return base + PickOf(r, "%s", "%d", "100%\"", "%!x", "\\n", "\x00", "%v%v", "\"quoted\"", "a\tb", "\\u003c", "a \\u0026 b", "\\u003e", "<&>", "\\\\")
 	}
 	return base
 }
